@@ -1631,6 +1631,15 @@ void EvalStrExpression(tStrComp const* pExpr, TempResult* pErg) {
             LEAVE;
         }
         for (z1 = 0; z1 < cnt; z1++) {
+            /* character constants are integers where an integer is expected: */
+            if ((InVals[z1].Typ == TempString)
+                && (!(pFunction->ArgTypes[z1] & (1 << TempString)))
+                && (pFunction->ArgTypes[z1] & (1 << TempInt))) {
+                if (TempResultToInt(&InVals[z1])) {
+                    WrStrErrorPos(ErrNum_IntButString, &InArgs[z1]);
+                    LEAVE;
+                }
+            }
             if ((InVals[z1].Typ == TempInt)
                 && (!(pFunction->ArgTypes[z1] & (1 << TempInt)))) {
                 TempResultToFloat(&InVals[z1]);
